@@ -182,6 +182,8 @@ class ImplWorld:
         self.reset()
 
     def reset(self):
+        self.ostate = {}     # scratch state of the oracles
+        self.last_line = ''; self.last_out = ''
         self.vars = {}
         self.dicts = []
         self.embcx = {}     # embedding var -> complex var
@@ -237,6 +239,31 @@ class ImplWorld:
             return line, self.snapshot(toks[1])
         if kw == 'ids':
             return line, [self.ids()]
+        if kw == '!':
+            # implementation-only step: the model does not run it (it gets the state by `sync`)
+            a, o = self.exec(' '.join(toks[1:]))
+            return 'echo ! ' + ' '.join(toks[1:]), o
+        if kw == 'both':
+            # both <a> <b> <kw> <args>: the request goes to <a>; <b> receives it only if <a> accepted it
+            a_, b_ = toks[1], toks[2]
+            la = ' '.join([toks[3], a_] + toks[4:]); lb = ' '.join([toks[3], b_] + toks[4:])
+            ann_a, out_a = self.exec(la)
+            keep_line, keep_out = self.last_line, self.last_out
+            if out_a and out_a[0].startswith('err'):
+                return ann_a, out_a
+            ann_b, out_b = self.exec(lb)
+            self.last_line, self.last_out = keep_line, keep_out
+            return ann_a + '\n' + ann_b, out_a + out_b
+        if kw == 'sync':
+            return self.sync(toks[1]), ['ok sync']
+        if kw == 'check':
+            from harness import oracles
+            try:
+                msg = oracles.run(self, toks[1], toks[2:])
+            except Exception as e:
+                import traceback
+                msg = 'oracle raised %s: %s | %s' % (type(e).__name__, e, esc(traceback.format_exc()[-600:]))
+            return 'echo ' + line, (['ok check'] if msg is None else ['ORACLE-FAIL %s %s' % (toks[1], msg)])
         T = Toks(toks[1:])
         self.annot = None
         try:
@@ -246,6 +273,7 @@ class ImplWorld:
             out = 'err ' + exn_name(e)
         except Exception as e:
             out = 'err ' + exn_name(e)
+        self.last_line = line; self.last_out = out
         return (self.annot if self.annot is not None else line), [out]
 
     def cx(self, v):
@@ -286,6 +314,12 @@ class ImplWorld:
             f = T.next(); pre = T.next()
             for n, c in enumerate(V[f].complexes()):
                 V[pre + str(n)] = c
+            return None
+        if kw == 'complexes-partial':
+            # (implementation-side only) take n snapshots from the iterator and abandon it
+            f = T.next(); n = T.nat(); it = iter(V[f].complexes())
+            for _ in range(n):
+                next(it)
             return None
         if kw == 'vr':
             # script form: vr w e <eps hex> ; annotated for the model: vr w v [ i j ... ]
@@ -448,6 +482,17 @@ class ImplWorld:
             i = T.idx(); r = T.bool(); return self.groups(c, c.simplicesAddedAtIndex(i, reverse=r))
         if q == 'containssome': return b(c.containsSimplexAtSomeIndex(T.name()))
         raise ValueError('query ' + q)
+
+    def sync(self, v):
+        """Lines that rebuild, in the model, the complex the implementation holds in variable v
+        (points and simplices in listing order, by faces, with attribute contents)."""
+        c = self.vars[v]
+        lines = ['echo @sync', 'new ' + v]
+        for s in SimplicialComplex.simplices(c):
+            d = c[s]
+            a = '-' if len(d) == 0 else '{ ' + ' '.join('s' + esc(k) + ' ' + aval_tok(x) for k, x in d.items()) + ' }'
+            lines.append('add %s %s %s %s' % (v, list_s(sorted(c.faces(s), key=tok)), tok(s), a))
+        return '\n'.join(lines)
 
     # -- observation
     def snapshot(self, v):
